@@ -61,6 +61,10 @@ PropC04(e) == e.ev = "pp" =>
   /\ NormMsgJ(r.msgs[1]) = NormMsgJ(e.orig)               \* same header fields and item tree
   /\ e.revars = e.vars /\ e.restring = e.string          \* same variables; the printed form is a fixed point
   /\ e.bytes # <<>> /\ e.rebytes = e.bytes               \* and, once completed, the same bytes
+\* TLC -> Go: the message TLC enumerated was built as given, and the real printer writes what the printer model writes
+PropC04x(e) == (e.ev = "pp" /\ "want" \in DOMAIN e) =>
+   /\ NormMsgJ(e.orig) = NormMsgJ(e.want.msg)
+   /\ e.string = e.want.text
 AgreeC04(e) == e.ev = "pp" => e.string = PrintMsg(e.orig) /\ Real(e.re) = Model(e.re)
 
 \* ------------------------------------------------------------------ C08: layout invariance
@@ -147,6 +151,7 @@ InvC15 == l > 0 => PropC15(E)
 InvAgreeParse == l > 0 => AgreeParse(E)
 InvAgreeLex == l > 0 => AgreeLex(E)
 InvC04 == l > 0 => PropC04(E)
+InvC04x == l > 0 => PropC04x(E)
 InvAgreeC04 == l > 0 => AgreeC04(E)
 InvC08 == l > 0 => PropC08(E)
 InvAgreeC08 == l > 0 => AgreeC08(E)
